@@ -562,6 +562,12 @@ namespace Pistache::Http
             buffer.reset();
             cursor.reset();
 
+            for (auto& step : allSteps)
+            {
+                if (step)
+                    step->reset();
+            }
+
             currentStep = 0;
         }
 
@@ -1064,6 +1070,13 @@ namespace Pistache::Http
         allSteps[0] = std::make_unique<ResponseLineStep>(&response);
         allSteps[1] = std::make_unique<HeadersStep>(&response);
         allSteps[2] = std::make_unique<BodyStep>(&response);
+    }
+
+    void Private::ParserImpl<Http::Response>::reset()
+    {
+        ParserBase::reset();
+
+        response = Response();
     }
 
     void Handler::onInput(const char* buffer, size_t len,
